@@ -916,9 +916,9 @@ def plan(quick: bool) -> Tuple[List[Tuple[Any, ...]], List[Tuple[Any, ...]], Lis
         rspaces = [(1, 2, (0, 1, 2, 3), True, True), (2, 2, (0, 1, 2, 3), True, True), (3, 1, (0, 1, 3), False, False)]
     else:
         spaces = [(1, 2, (0, 1, 2, 3), True, True, 1), (2, 2, (0, 1, 2, 3), True, True, 1), (3, 1, (0, 1, 2, 3), True, True, 2),
-                  (3, 2, (0, 1, 2, 3), True, False, 16), (4, 1, (0, 1, 2, 3), False, False, 4), (4, 2, (0, 1), False, False, 0),
-                  (5, 1, (0, 1, 3), False, False, 4)]
-        pspaces = [(2, 2, (0, 1, 2, 3)), (3, 1, (0, 1, 2, 3)), (4, 1, (0, 1))]
+                  (3, 2, (0, 1, 2), True, False, 16), (4, 1, (0, 1, 2, 3), False, False, 4), (4, 2, (0, 1), False, False, 0),
+                  (5, 1, (0, 1), False, False, 4)]
+        pspaces = [(2, 2, (0, 1, 2)), (3, 1, (0, 1, 2, 3)), (4, 1, (0, 1))]
         rspaces = [(1, 2, (0, 1, 2, 3), True, True), (2, 2, (0, 1, 2, 3), True, True), (3, 1, (0, 1, 2, 3), True, True),
                    (3, 2, (0, 1), False, True)]
     desc = []
